@@ -72,15 +72,15 @@ theorem ratToNat_cases (q : Rat) (hq : 0 ≤ q) :
   definitional unfolding and the kernel re-evaluates the remaining program (with its string comparisons)
   at every statement — about a minute for this method instead of a fraction of a second. -/
 
-theorem ok_bind' {ε σ ρ : Type} (a : σ) (f : σ → Except ε ρ) : (Except.ok a >>= f) = f a := id rfl
-theorem error_bind' {ε σ ρ : Type} (e : ε) (f : σ → Except ε ρ) : (Except.error e >>= f) = .error e := id rfl
-theorem exec_seq' (a b : S) (env : Env α) : exec (.seq a b) env = (exec a env >>= exec b) := id rfl
-theorem exec_ite (c : E) (t e : S) (env : Env α) :
+theorem u_ok_bind' {ε σ ρ : Type} (a : σ) (f : σ → Except ε ρ) : (Except.ok a >>= f) = f a := id rfl
+theorem u_error_bind' {ε σ ρ : Type} (e : ε) (f : σ → Except ε ρ) : (Except.error e >>= f) = .error e := id rfl
+theorem u_exec_seq' (a b : S) (env : Env α) : exec (.seq a b) env = (exec a env >>= exec b) := id rfl
+theorem u_exec_ite (c : E) (t e : S) (env : Env α) :
     exec (.ite c t e) env = (evalE env c >>= fun v => match v with
       | .bool true => exec t env
       | .bool false => exec e env
       | _ => throw .type) := id rfl
-theorem exec_raise (k : PyErr) (env : Env α) : exec (.raise k) env = .error k := id rfl
+theorem u_exec_raise (k : PyErr) (env : Env α) : exec (.raise k) env = .error k := id rfl
 
 theorem unitNs_eq (u : TUnit) : evalUn (α := α) .unitNs (.str (unitStr u)) = .ok (.int u.nanos) := by
   cases u <;> rfl
@@ -113,10 +113,10 @@ theorem evalBin_eq_int_zero (x : Int) : evalBin (α := α) .eq (.int x) (.int 0)
 
 /-- Symbolic execution of `time_unit_transformer`. -/
 macro "tut_simp" "[" ls:Lean.Parser.Tactic.simpLemma,* "]" : tactic =>
-  `(tactic| simp [call, Gen.Units.time_unit_transformer, exec_skip, exec_seq', exec_setLoc, exec_ite, exec_raise,
+  `(tactic| simp [call, Gen.Units.time_unit_transformer, exec_skip, u_exec_seq', exec_setLoc, u_exec_ite, u_exec_raise,
       evalE, cfgStore, optUnitStr, evalUn_frac_rat, evalUn_numer_rat, evalUn_denom_rat, evalUn_toInt_rat, unitNs_eq,
       evalBin_mul_rat_int, evalBin_div_rat_rat, evalBin_mod_num_den, evalBin_gt_int_zero, evalBin_eq_int_zero,
-      ok_bind', error_bind', getKey_cons_same, getKey_cons_ne, setKey, pure, Except.pure, Except.map,
+      u_ok_bind', u_error_bind', getKey_cons_same, getKey_cons_ne, setKey, pure, Except.pure, Except.map,
       Rat.intCast_natCast, $ls,*])
 
 /-- The translated `time_unit_transformer` computes `SIv.toSamples` (and raises RTAMTException exactly when the mirror
